@@ -37,6 +37,8 @@ func main() {
 		os.Exit(cmdReplay(os.Args[2:]))
 	case "concrete":
 		os.Exit(cmdConcrete(os.Args[2:]))
+	case "modeldiff":
+		os.Exit(cmdModelDiff())
 	case "manifest":
 		os.Exit(cmdManifest())
 	case "list":
@@ -176,4 +178,18 @@ func cmdReplay(args []string) int {
 		}
 	}
 	return code
+}
+
+func cmdModelDiff() int {
+	rp := newReplayer()
+	defer rp.cleanup()
+	n, bad, lines, err := rp.runModelDiff(1)
+	fmt.Println("comparisons", n, "disagreements", bad, err)
+	for _, l := range lines {
+		fmt.Println(l)
+	}
+	if bad > 0 || err != nil {
+		return 1
+	}
+	return 0
 }
